@@ -198,7 +198,7 @@ def mol_inputs(ck, rng):
     for raw, _ in test_groups_data():
         out.append(('doc', raw))
     extra = ['[Ti+4](C#N)(C#N)C#N', '[Ti](C#N)(C#N)(C#N)(C#N)(C#N)C#N', '[Fe](C#N)(C#N)(C#N)(C#N)(C#N)C#N', '[Fe+2](C#N)C#N',
-             '[Cu]C#N', 'C[Mg]Br', 'C[Li]', '[Na]OC', 'CC(=O)O[Na]', '[Zn](C)C', 'CC[Al](CC)CC', '[Pd](Cl)(Cl)(N)N', 'Cl[Pt](Cl)(N)N',
+             '[Cu]C#N', '[Pd](Cl)(Cl)=C1N(C)C=CN1C', 'Cl[Pd](Cl)=C1N(C)CCN1C', 'C[Mg]Br', 'C[Li]', '[Na]OC', 'CC(=O)O[Na]', '[Zn](C)C', 'CC[Al](CC)CC', '[Pd](Cl)(Cl)(N)N', 'Cl[Pt](Cl)(N)N',
              'O=N(=O)c1ccccc1N(=O)=O', 'CN(=O)=O.CN(=O)=O', 'OP(=O)(O)OP(=O)(O)O', 'C[S+](C)[O-].C[S+](C)[O-]', 'FP(F)(F)(F)(F)F',
              'F[P-](F)(F)(F)(F)F', '[O-][N+](=O)c1ccc(cc1)[N+](=O)[O-]', 'C[N+](C)(C)C', 'CN(C)(C)C.CN(C)(C)C', 'O=C1NC=CC=C1',
              'OC1=NC(O)=NC=C1', 'O=C1NC(=O)NC=C1', 'CC(O)=CC(C)=O', 'N=C(O)c1ccccc1', 'OS(=N)(=N)O', 'CS(=N)(=N)O',
@@ -216,8 +216,8 @@ def mol_inputs(ck, rng):
 
 def corr_engine(ck, rng):
     from chython import smiles
-    n_corpus = 60 if ck.tier == 'quick' else 600
-    n_decor = 80 if ck.tier == 'quick' else 800
+    n_corpus = 40 if ck.tier == 'quick' else 600
+    n_decor = 60 if ck.tier == 'quick' else 800
     cases, meta = [], []
     rules_fired = collections.Counter()
     rules_self = {}
@@ -353,7 +353,7 @@ def pyres_mol(fn, m):
 def corr_hydrogens(ck, rng):
     from chython import smiles
     cases, meta = [], []
-    n_corpus = 50 if ck.tier == 'quick' else 500
+    n_corpus = 35 if ck.tier == 'quick' else 500
     pool = [('h', s) for s in H_SMILES] + [('doc', raw) for raw, _ in test_groups_data()[::2]] + \
            [('corpus', s) for s in corpus.sample(corpus.lipo(), n_corpus, ck.seed, 'c14-h')]
     for k, (tag, s) in enumerate(pool):
@@ -803,9 +803,9 @@ def search(ck, rng):
                                replay_py=f'from chython import smiles\nm = smiles({raw!r}); m.standardize(); print(m, smiles({want!r}))')
     # (2) all operations on valence-valid corpus / decorated / hand-made molecules
     pool = []
-    for s in corpus.sample(lip, 45 if quick else 700, ck.seed, 'c14-search'):
+    for s in corpus.sample(lip, 35 if quick else 700, ck.seed, 'c14-search'):
         pool.append(('corpus', s, None))
-    for k, s in enumerate(corpus.sample(lip, 45 if quick else 700, ck.seed, 'c14-search-dec')):
+    for k, s in enumerate(corpus.sample(lip, 35 if quick else 700, ck.seed, 'c14-search-dec')):
         pool.append(('decorated', s, k))
     for tag, s in mol_inputs(ck, rng):
         pool.append((tag, s, None))
